@@ -32,8 +32,8 @@ def check(prop, tier, seed):
     for r in rows:
         if r['alpn'] == 'h2' and not r['assume_http2'] and r['tls_cfg'] and r['name'] in ('match', 'mismatch'):
             if r['client_auth'] == 'none' and r['identity'] == 'none' and r['roots'] in ('right', 'other'):
-                for f in ('bundle_first', 'bundle_last'):
-                    extra.append(dict(r, roots_form=f, **{'class': 'pem_bundle_roots'}))
+                for f in ('bundle_first', 'bundle_last', 'list_first', 'list_last'):
+                    extra.append(dict(r, roots_form=f, **{'class': 'pem_bundle_roots' if f.startswith('bundle') else 'several_roots'}))
             if r['client_auth'] != 'none' and r['roots'] == 'right' and r['name'] == 'match':
                 for f in ('bundle_first', 'bundle_last'):
                     extra.append(dict(r, client_ca_form=f, **{'class': 'pem_bundle_client_ca'}))
